@@ -71,6 +71,27 @@ Theorem C19_canon_idempotent :
 Proof. exact canon_idempotent. Qed.
 Print Assumptions C19_canon_idempotent.
 
+(* the recursion budget is irrelevant: a larger budget gives the same result, two successful runs agree,
+   and idempotence holds at the same budget.  Termination (existence of a sufficient budget for every
+   input) is NOT proved: the rule set mixes a size-increasing distribution with reassociation and a
+   reordering keyed on get_dim, interleaved with xDSL's own simplifications; L1 runs the model with
+   budget 400 on every generated expression and a shortfall would show as a disagreement. *)
+From Snax Require Import Proofs.C19CanonFuelProofs.
+Theorem C19_canon_fuel_mono :
+  forall f f', (f <= f')%nat -> forall e r, canonicalize_expr f e = Some r -> canonicalize_expr f' e = Some r.
+Proof. exact canon_fuel_mono. Qed.
+Print Assumptions C19_canon_fuel_mono.
+
+Theorem C19_canon_fuel_irrelevant :
+  forall f1 f2 e r1 r2, canonicalize_expr f1 e = Some r1 -> canonicalize_expr f2 e = Some r2 -> r1 = r2.
+Proof. exact canon_fuel_irrelevant. Qed.
+Print Assumptions C19_canon_fuel_irrelevant.
+
+Theorem C19_canon_idempotent_same_fuel :
+  forall fuel e r, canonicalize_expr fuel e = Some r -> canonicalize_expr fuel r = Some r.
+Proof. exact canon_idempotent_same_fuel. Qed.
+Print Assumptions C19_canon_idempotent_same_fuel.
+
 (* non-vacuity: reassociation + reordering + distribution really happen *)
 Example C19_canon_nonvacuous :
   let e := EBin KMul (EBin KAdd (EBin KAdd (EDim 1) (ECst 3)) (EDim 0)) (ECst 4) in
